@@ -143,15 +143,29 @@ def run(ctx):
                                              Acts={"op", "ctx", "bw"}, InitLeaves=[dict(vec=False, rg=True), dict(vec=False, rg=False)]))
     AG.replay_all(ctx, rep, mx, table, c, KINDS, label="live:", limit=30000 if q else 200000, live=True)
     steps = 20000 if q else 100000
-    for mode in ("no_grad", "no_req"):
-        w = sg.Tensor(np.array(1.0, dtype=np.float32), requires_grad=(mode == "no_grad"))
+    # untracked loops.  no_grad: a fresh context; no_req: no operand requires grad; reentered: a no_grad object built
+    # while tracking was on is entered and left again inside the block at every step; opt_step: an optimizer takes a
+    # step inside the block at every step (running averages of the weights) - tracking must stay off after either
+    for mode in ("no_grad", "no_req", "reentered", "opt_step_sgd", "opt_step_adam"):
+        w = sg.Tensor(np.array(1.0, dtype=np.float32), requires_grad=(mode != "no_req"))
         x = sg.Tensor(np.array(1.0, dtype=np.float32))
         refs = []
-        cm = sg.no_grad() if mode == "no_grad" else None
+        inner = sg.no_grad() if mode == "reentered" else None
+        opt = None
+        if mode.startswith("opt_step"):
+            w.grad = sg.Tensor(np.array(0.0, dtype=np.float32))
+            opt = sg.optim.SGD([w], lr=0.0) if mode.endswith("sgd") else sg.optim.Adam([w], lr=0.0)
+        cm = sg.no_grad() if mode != "no_req" else None
         if cm:
             cm.__enter__()
         try:
             for i in range(steps):
+                if inner is not None:
+                    with inner:
+                        pass
+                if opt is not None and i % 50 == 0:
+                    with repo.quiet():
+                        opt.step()
                 x = x * w + 0.0
                 if i % 100 == 0:
                     refs.append(weakref.ref(x))
@@ -163,6 +177,6 @@ def run(ctx):
         rep.case("loop:" + mode)
         rep.sample(dict(loop=mode, steps=steps, sampled=len(refs), alive=alive))
         if alive > 2:
-            rep.violation("live:loop:" + mode, "%d of %d sampled intermediates of a %d-step untracked loop are still alive" % (alive, len(refs), steps))
+            rep.violation("live:loop:" + mode, "%d of %d sampled intermediates of a %d-step untracked loop (%s) are still alive" % (alive, len(refs), steps, mode))
     rep.exhaustive = False
     return rep.finish()
